@@ -348,7 +348,7 @@ theorem mdField_creator_keeps (md : Meta) (m' : Xml)
   | none => simp only [hl, Except.ok.injEq] at h; rw [← h]; rfl
   | some v =>
     simp only [hl, addSub, checkAdd, Bool.false_eq_true, if_false, ok_bind, pure_eq_ok, fieldElem] at h
-    cases hn : needStr v with
+    cases hn : pyStr v with
     | error e => simp [hn] at h
     | ok t => simp [hn] at h; rw [← h]; simp [hasChild, append]
 
@@ -708,7 +708,7 @@ theorem mdField_valid (md : Meta) (m : Xml) (field : String) (m' : Xml) (h : mdF
     simp only [hl] at h
     refine addSub_valid m field _ m' h hm (fun c hc => ?_)
     unfold fieldElem at hc
-    cases hn : needStr v with
+    cases hn : pyStr v with
     | error e => simp [hn] at hc
     | ok t => simp [hn] at hc; rw [← hc]; simp [validTree, validKids]
 
